@@ -378,6 +378,14 @@ func run(c *rig.Ctx) {
 			w.write(a, v)
 			w.check(a, fmt.Sprintf("%d cycles after LCD-on / timer start (LCD switched off first: %v): write %02X to %04X", off, lcdOffFirst, v, a))
 		}
+		// and once more a few cycles later: a store made in one hardware phase must not get in
+		// the way of the next store to the same register
+		w.tick(1 + int(i%3))
+		for _, a := range plain {
+			v := r.U8()
+			w.write(a, v)
+			w.check(a, fmt.Sprintf("%d(+%d) cycles after LCD-on / timer start (LCD switched off first: %v): second write %02X to %04X", off, 1+int(i%3), lcdOffFirst, v, a))
+		}
 		// stopping the timer at this very offset (possibly in the middle of an overflow/reload)
 		// leaves TIMA and TMA as plain latches from then on
 		w.m.Mem.Write(0xff07, 0x00)
